@@ -20,10 +20,14 @@ CLAIMED = {
     "C03": ("Partial. REFUTED for the faithful model (D3 widening fill bit; ?: arm conversion), witnesses by vm_compute; repaired model "
             "correct on them. Per run: K2 on all 8x8 type pairs x {cast, initialisation, assignment, store, register target, argument, "
             "boolean source} + chains; differential oracle on real outputs inside the guard.", "model + refutation witnesses; K2; differential oracle"),
-    "C05": ("Partial. REFUTED (D14 compound assignment to narrow local, D19/D21 division and remainder), positive instances for if/else "
-            "and for loops by vm_compute. Per run: K2 on 11 assignment operators x targets x types and generated statement sequences; "
+    "C05": ("Partial. THEOREM C05_statements_correct_repaired (proofs/StmtCorrect.v): for EVERY behaviour of the statement fragment (assignments of pure "
+            "expressions to destination registers and locals, += -= *=, declarations with initialiser, stores, JUMP, blocks, if/else, sequences of any length "
+            "and depth) the whole transformer (tlower_info incl. final sequence and register finalisation, all repairs on) emits an effect whose run from any "
+            "related state ends in the state ISO C prescribes; the fresh-name premise is exact (D29). REFUTED for the faithful model (D19/D21 division and "
+            "remainder), positive instances for loops by vm_compute. Per run: K2 on 11 assignment operators x targets x types and generated statement sequences; "
             "differential oracle over states driving both arms and several trip counts.", "model + refutation witnesses; K2; differential oracle"),
-    "C06": ("Partial. REFUTED (D4: a value-producing operation whose value is unused at top level is hoisted to the front), with the model's "
+    "C06": ("Partial. Clause 'temporaries are written before they are read': the must-analysis da_effect is evaluated in Coq on every real output (proofs/TmpDef.v); "
+            "theorems C06_definite_assignment_is_preserved / C06_temporaries_written_before_read give its meaning for every effect and state. REFUTED (D4: a value-producing operation whose value is unused at top level is hoisted to the front), with the model's "
             "own bookkeeping (leftover count) as explanation; positive instances for postfix, statement-expression and ?: arm. Per run: K2 on "
             "hybrid placements; differential oracle inside the guard.", "model + refutation witnesses; K2; differential oracle"),
     "C07": ("Partial (architectural table and plugin contract are trusted, T4). Theorem C07_operand_binding: for EVERY ISA operand spelling of the finite grammar (4 classes x 17 "
@@ -41,7 +45,7 @@ CLAIMED = {
             "always evaluates to a value of its sort; sort consistency of locals is preserved by execution; progress with definite "
             "assignment). The property is REFUTED for the faithful model (D2, D14). Per run: K2; wf_effect is evaluated in Coq on the "
             "denotation of every real output.", "proved-sound checker run on every output; model refutations; K2"),
-    "C01": ("Partial. Per run EVERY accepted part of the sampled (quick: 150 + known call sites) or whole (thorough: 2181 definitions, 72 two-part) "
+    "C01": ("Partial. Per run EVERY accepted part of the sampled (quick: a feature cover of the corpus ~310 + 50 random + known call sites) or whole (thorough: 2181 definitions, 72 two-part) "
             "corpus and the 13 sub-routines is compared tree-for-tree with the model (K2, hybrid counter chained over parts) and run through the "
             "differential oracle (C semantics of the behaviour text vs RzIL semantics of the real output over boundary/random states), guard flags and "
             "classes are reported. Theorems: the statement is REFUTED by a shipped instruction (L2_loadrub_pbr, D5); six shipped instructions "
@@ -70,7 +74,11 @@ CLAIMED = {
             "every field get_meta reads; every entry point resets on every exit path (after the fix: commit for D10). K-hist: random histories with failing "
             "inputs, two instances, both entry points, each step compared with a fresh process up to renaming of h_tmpN. Not proved: that the counter's only "
             "influence on the model is that renaming (tested).", "Coq obligations over regenerated tables; history correspondence K-hist"),
-    "C15": ("Partial. REFUTED (D7: comma, goto, break, continue, labels are accepted and dropped), rejected constructs shown rejected on the "
+    "C15": ("THEOREMS for ALL programs and every configuration with the reject switch on (= the tree after the fix commit): C15_unsupported_rejected_everywhere "
+            "(a construct of the unsupported list at ANY depth - blocks, branches, loop parts, statement-expressions, ?: arms, call/macro/load/store arguments, casts, "
+            "initialisers - is rejected) and C15_translated_or_rejected (an accepted program has nothing discarded, except a bare string-literal statement), "
+            "proofs/NoDrop.v. Per run additionally: every ordered pair of supported statements at top level / in a branch / in a loop body under the differential oracle "
+            "('translated completely'). History: REFUTED before the fix (D7: comma, goto, break, continue, labels are accepted and dropped), rejected constructs shown rejected on the "
             "model; per run: K2 on each unsupported construct at every statement position; oracle: accepted program must not contain a construct "
             "of the property's list (known: the five dropped ones).", "model + refutation witnesses; K2; construct oracle"),
     "C17": ("Partial: Lark's Earley engine and its ambiguity resolution are third-party runtime and are not modelled. Obligations (props/C17.v) over tables REGENERATED "
@@ -90,10 +98,14 @@ CLAIMED = {
             "`insn(` is accepted; D12b text before the first part marker is dropped). K5 ties model/Pre.v to the code on all 2181 bundled lines (quick: 500), all 72 "
             "compounds and generated lines; the property oracle (whole line must be insn(NAME, BODY); parts must be exactly the marked regions) runs on the real results.",
             "Coq proofs over regenerated regexes + K5 correspondence + reference oracle"),
-    "C20": ("Partial: pcpp is not modelled. The repository's own steps cleanup_macros / patch_macros / replace_do_while_0 are modelled over the regenerated regexes and tied by K5 "
+    "C20": ("Partial: pcpp is not modelled. THEOREMS for all macro files and patch files (proofs/PatchProofs.v): C20_patch_macros_spec (patch_macros as one equation: "
+            "fails exactly on a non-#define line; else unmatched patches reversed, then one pass replacing the first definition of each patched name, dropping its later "
+            "definitions, keeping the rest in order), C20_each_patch_once (used + left-over patches are a permutation of the patch file, each used at most once), "
+            "C20_do_while_total / _removes_exactly_the_wrapper / _call_site_shape (on a newline-terminated line the result is one terminated line without wrapper). "
+            "The repository's own steps cleanup_macros / patch_macros / replace_do_while_0 are modelled over the regenerated regexes and tied by K5 "
             "(bundled macro files, generated macro/patch sets in a scratch copy, generated do-while bodies); property oracles on the real results (each patch exactly once, "
             "unpatched macros preserved in order, user-only patches prepended; reference do-while stripper); full regeneration in a scratch copy reproduces the bundled files; "
-            "clang -E as an independent preprocessor agrees on all 2181 definitions; names one-to-one; no defined macro invocation survives. REFUTED: look-alike identifiers "
+            "clang -E as an independent preprocessor agrees on all 2181 definitions; names one-to-one; no defined macro invocation survives; two generations in one process vs a fresh process (history). REFUTED: look-alike identifiers "
             "(D12c) and neighbouring loops (D12d) are mangled by the greedy regex.", "Coq model + examples/refutations; K5; scratch-copy regeneration and independent preprocessor (test)"),
 }
 
